@@ -1,6 +1,7 @@
 (* C06 — fully missing features/samples are ignored exactly; isolated NaNs are refused. Statements only. *)
 From Coq Require Import List Bool Arith ZArith.
 From XV Require Import Model.Sanitizer Gen.T6san Proofs.C06_proofs Proofs.C06_tie.
+From XV Require Model.OScale Proofs.OScale_proofs Gen.T4.
 Import ListNotations.
 
 (* (a) the implemented test — every sample's number of non-null features is 0 or the number of valid
@@ -126,3 +127,26 @@ Theorem C06_model_matches_source :
    option_map axis_of_gen san_inverse_scores_unseen_axis = model_inverse_scores_unseen_axis).
 Proof. exact model_matches_source. Qed.
 Print Assumptions C06_model_matches_source.
+
+(* the Scaler runs in front of the Sanitizer, on data that still has its missing values.  For ANY per-feature
+   operation x |-> g j (present values of feature j) x - centring, standardisation with any divisor and clipping,
+   weights - scaling and then deleting the fully missing samples/features equals deleting first and scaling the
+   reduced data: fully missing samples contribute nothing to a statistic that skips missing values *)
+Theorem C06_scaling_commutes_with_deletion : forall (F : Type) (n p : nat) (g : nat -> list F -> F -> F) (M : @omat F), owf n p M ->
+  let I := kept_rows M in let J := kept_cols p M in
+  select I J (OScale.omap_cols p g M) = OScale.omap_cols (length J) (fun b => g (nth b J 0)) (select I J M).
+Proof. exact (@OScale_proofs.scale_commutes_with_deletion). Qed.
+Print Assumptions C06_scaling_commutes_with_deletion.
+
+(* hence Scaler-then-Sanitizer hands on exactly the scaled reduced data as the dense matrix to be decomposed *)
+Theorem C06_sanitize_after_scaling : forall (F : Type) (n p : nat) (g : nat -> list F -> F -> F) (M : @omat F),
+  owf n p M -> isolated_ok p M = true ->
+  exists D, sanitize p (OScale.omap_cols p g M) = SOk (mkOut D (kept_rows M) (kept_cols p M)) /\
+            undense D = OScale.omap_cols (length (kept_cols p M)) (fun b => g (nth b (kept_cols p M) 0)) (select (kept_rows M) (kept_cols p M) M).
+Proof. exact (@OScale_proofs.sanitize_after_scaling). Qed.
+Print Assumptions C06_sanitize_after_scaling.
+
+(* source tie: the fitted mean and standard deviation are reductions over the sample dimensions that skip missing values *)
+Theorem C06_scaler_stats_skip_missing : T4.scaler_stats_skip_missing = true /\ T4.scaler_missing_feature_neutral_stats = true.
+Proof. exact (conj eq_refl eq_refl). Qed.
+Print Assumptions C06_scaler_stats_skip_missing.
